@@ -48,7 +48,7 @@ WORKERS = {"quick": 1, "thorough": 14}
 
 def gen_cases(ctx):
     rng = ctx.rng
-    for i in range(ctx.scale(3600, 720000)):
+    for i in range(ctx.scale(3000, 720000)):
         c = gen_history_case(rng, max_jobs=rng.choice([2, 3, 4, 5, 6]),
                              max_machines=rng.choice([2, 3, 4, 5]))
         c["kind"] = "history"
@@ -56,6 +56,9 @@ def gen_cases(ctx):
         # available_operations() during dispatch and reset)
         c["episodes"] = rng.choice([1, 1, 1, 2, 3])
         c["observers"] = rng.random() < 0.3
+        # a copy of the dispatcher (copy.deepcopy) is made mid-history and advanced on its own;
+        # the filters applied to the original must not notice
+        c["fork_at"] = rng.choice([None] * 5 + [1, 2, rng.randint(1, 8)])
         yield c
 
 
@@ -145,7 +148,24 @@ def run_case(ctx, case):
         _snap.full_observer_set(d)
         ctx.count("histories_with_observers_attached")
     episodes_left = case.get("episodes", 1) - 1
+    fork_at = case.get("fork_at")
     while not run.done() or episodes_left > 0:
+        if fork_at is not None and len(r.history) == fork_at:
+            import copy
+            fork_at = None
+            d2 = copy.deepcopy(d)
+            twin = Run(case["instance"], case.get("filter"), dispatcher=d2, instance=d2.instance)
+            twin.r = r.clone()
+            for _ in range(rng.randint(1, 4)):
+                if twin.done():
+                    break
+                o2, m2 = twin.choose(rng, "random_ready")
+                twin.dispatch(o2, m2)
+            ctx.count("forks")
+            # the copy's filters see the copy's state
+            if not twin.done():
+                for n in gen.FILTER_NAMES:
+                    check_filter(ctx, twin, [n], rng.choice(forms), twin.r.ready(), pruned)
         if run.done():
             episodes_left -= 1
             d.reset(); r.reset()
